@@ -6,7 +6,7 @@
     loop.  [cfg_ok C] and [esc_ok E] are decidable conditions that the check discharges for today's source
     by computation (instance obligations); everything else is proved for all inputs. *)
 From Coq Require Import List NArith Bool.
-From SV Require Import KV.KvBase KV.KvLex KV.KvParse KV.KvSer KV.KvSym KV.KvRoundtrip KV.KvStrip.
+From SV Require Import KV.KvBase KV.KvLex KV.KvParse KV.KvSer KV.KvSym KV.KvParseProofs KV.KvRoundtrip KV.KvStrip.
 Import ListNotations.
 Open Scope N_scope.
 
@@ -14,16 +14,46 @@ Open Scope N_scope.
     every code point in names and values except line breaks in names), all whitespace-only indent strings,
     both brace styles, any start_indent, any flag table: parsing the serialised text gives the tree back
     (same shape, order, exact names and values) and no error. *)
-Theorem kv_roundtrip : forall C E, cfg_ok C = true -> esc_ok E = true ->
+Theorem kv_roundtrip : forall C E P, cfg_ok C = true -> esc_ok E = true -> pcfg_ok P = true ->
   forall flag_on o d, ws_opts o = true -> doc_names_ok d = true ->
-  parse_kv E flag_on (serialise_doc C E o d) = POk d.
+  parse_kv P E flag_on (serialise_doc C E o d) = POk d.
 Proof. exact roundtrip_doc. Qed.
 
 (** The same for serialise() called on a named node (start_indent is used there). *)
-Theorem kv_roundtrip_node : forall C E, cfg_ok C = true -> esc_ok E = true ->
+Theorem kv_roundtrip_node : forall C E P, cfg_ok C = true -> esc_ok E = true -> pcfg_ok P = true ->
   forall flag_on o k, ws_opts o = true -> names_ok k = true ->
-  parse_kv E flag_on (serialise_node C E o k) = POk [k].
+  parse_kv P E flag_on (serialise_node C E o k) = POk [k].
 Proof. exact roundtrip_node. Qed.
+
+(** Non-default parse options (allow_escapes=False is outside the model).  For every setting of newline_keys,
+    newline_values and single_line (single_block off): the tree comes back provided each kind of field is either
+    free of line breaks or allowed to have them.  In particular with newline_keys=True the round trip holds for
+    ALL names (the writer escapes LF and CR), and single_line=True never changes the result on serialised text. *)
+Theorem kv_roundtrip_options : forall C E P, cfg_ok C = true -> esc_ok E = true -> pcfg_ok P = true ->
+  forall flag_on O o d, po_single_block O = false -> ws_opts o = true ->
+  po_newline_keys O || doc_names_ok d = true -> po_newline_values O || doc_values_ok d = true ->
+  parse_kv_opts P O E flag_on (serialise_doc C E o d) = POk d.
+Proof. exact roundtrip_doc_opts. Qed.
+
+Theorem kv_roundtrip_options_node : forall C E P, cfg_ok C = true -> esc_ok E = true -> pcfg_ok P = true ->
+  forall flag_on O o k, po_single_block O = false -> ws_opts o = true ->
+  po_newline_keys O || names_ok k = true -> po_newline_values O || values_ok k = true ->
+  parse_kv_opts P O E flag_on (serialise_node C E o k) = POk [k].
+Proof. exact roundtrip_node_opts. Qed.
+
+(** single_block=True returns the node itself ([PNode], not a root): for a serialised named node, and for the
+    first top-level node of a serialised document whatever follows it. *)
+Theorem kv_roundtrip_single_block : forall C E P, cfg_ok C = true -> esc_ok E = true -> pcfg_ok P = true ->
+  forall flag_on O o k, po_single_block O = true -> ws_opts o = true ->
+  po_newline_keys O || names_ok k = true -> po_newline_values O || values_ok k = true ->
+  parse_kv_opts P O E flag_on (serialise_node C E o k) = PNode k.
+Proof. exact roundtrip_single_block_node. Qed.
+
+Theorem kv_roundtrip_single_block_first : forall C E P, cfg_ok C = true -> esc_ok E = true -> pcfg_ok P = true ->
+  forall flag_on O o k ks, po_single_block O = true -> ws_opts o = true ->
+  po_newline_keys O || names_ok k = true -> po_newline_values O || values_ok k = true ->
+  parse_kv_opts P O E flag_on (serialise_doc C E o (k :: ks)) = PNode k.
+Proof. exact roundtrip_single_block_doc. Qed.
 
 (** The serialised text depends on the indentation options only through whitespace: for any two
     whitespace-only option sets the tokenizer sees identical token streams (and no error). *)
@@ -49,30 +79,59 @@ Theorem serialise_ws_canonical_node : forall C E, cfg_ok C = true -> esc_ok E = 
 Proof. exact ws_canonical_node. Qed.
 
 (** The hypotheses are satisfiable (the repaired templates and the pinned escape tables). *)
-Theorem kv_hypotheses_satisfiable : cfg_ok (ref_sercfg (PEsc FName)) = true /\ esc_ok ref_escfg = true.
-Proof. exact (conj ref_cfg_ok ref_esc_ok). Qed.
+Theorem kv_hypotheses_satisfiable :
+  cfg_ok (ref_sercfg (PEsc FName)) = true /\ esc_ok ref_escfg = true /\ pcfg_ok ref_pcfg = true.
+Proof. exact (conj ref_cfg_ok (conj ref_esc_ok ref_pcfg_ok)). Qed.
 
 (** ... and needed.  Block name written raw (pinned tree, DESIGN section 7 #1): rejected by cfg_ok, and the
     model exhibits a tree that does not come back. *)
 Theorem kv_roundtrip_raw_block_name_refuted :
   cfg_ok (ref_sercfg (PRaw FName)) = false /\
   doc_names_ok raw_block_witness = true /\
-  parse_kv ref_escfg (fun _ => false)
+  parse_kv ref_pcfg ref_escfg (fun _ => false)
     (serialise_doc (ref_sercfg (PRaw FName)) ref_escfg default_opts raw_block_witness)
   = PErr (ELex LUnterminated).
 Proof. exact (conj raw_block_name_rejected raw_block_name_refuted). Qed.
 
 (** Names with line breaks are outside the format (the property excludes them). *)
 Theorem kv_roundtrip_linebreak_name_refuted :
-  parse_kv ref_escfg (fun _ => false)
+  parse_kv ref_pcfg ref_escfg (fun _ => false)
     (serialise_doc (ref_sercfg (PEsc FName)) ref_escfg default_opts [Leaf [97; 10] [98]])
   = PErr ENewlineKey.
 Proof. exact linebreak_name_refuted. Qed.
 
 (** Non-whitespace indent strings are outside the "apart from whitespace" clause. *)
 Theorem kv_roundtrip_nonws_indent_refuted :
-  parse_kv ref_escfg (fun _ => false)
+  parse_kv ref_pcfg ref_escfg (fun _ => false)
     (serialise_doc (ref_sercfg (PEsc FName)) ref_escfg
        {| o_indent := [120]; o_indent_braces := true; o_start := [] |} [Block [97] [Leaf [98] [99]]])
   <> POk [Block [97] [Leaf [98] [99]]].
 Proof. exact nonws_indent_refuted. Qed.
+
+(** The root test of the writer must be [is None] (seeded fault c01_1: a truth test also fires on the name ''):
+    rejected by cfg_ok, and the model exhibits the block that loses its header and braces. *)
+Theorem kv_roundtrip_falsy_root_test_refuted :
+  cfg_ok (ref_sercfg_rt RTFalsy (PEsc FName)) = false /\
+  doc_names_ok falsy_root_witness = true /\
+  parse_kv ref_pcfg ref_escfg (fun _ => false)
+    (serialise_doc (ref_sercfg_rt RTFalsy (PEsc FName)) ref_escfg default_opts falsy_root_witness)
+  = POk [Leaf [97] [98]].
+Proof. exact (conj falsy_root_test_rejected falsy_root_test_refuted). Qed.
+
+(** The parser's 'Illegal newline in key' test may reject LF and CR only (seeded fault c01_2: str.splitlines
+    also breaks on VT, FF, FS, GS, RS, NEL, LS, PS): rejected by pcfg_ok, with a legal name that does not come back. *)
+Theorem kv_roundtrip_wide_key_break_refuted :
+  pcfg_ok wide_break_pcfg = false /\
+  doc_names_ok [Leaf [97; 11; 98] [99]] = true /\
+  parse_kv wide_break_pcfg ref_escfg (fun _ => false)
+    (serialise_doc (ref_sercfg (PEsc FName)) ref_escfg default_opts [Leaf [97; 11; 98] [99]])
+  = PErr ENewlineKey.
+Proof. exact (conj wide_key_break_rejected wide_key_break_refuted). Qed.
+
+(** newline_values=False: the premise on values of kv_roundtrip_options is needed. *)
+Theorem kv_roundtrip_linebreak_value_refuted :
+  parse_kv_opts ref_pcfg {| po_newline_keys := false; po_newline_values := false; po_single_line := false;
+                            po_single_block := false |} ref_escfg (fun _ => false)
+    (serialise_doc (ref_sercfg (PEsc FName)) ref_escfg default_opts [Leaf [97] [98; 13]])
+  = PErr ENewlineValue.
+Proof. exact linebreak_value_refuted. Qed.
